@@ -174,7 +174,7 @@ impl CodePage {
         if *self == CodePage::UsAscii {
             ascii_decode(bytes)
         } else {
-            self.encoding().decode(bytes).0.into_owned()
+            self.encoding().decode_without_bom_handling(bytes).0.into_owned()
         }
     }
 
